@@ -96,6 +96,13 @@ func ElemIdx(off, i *Term) *Term {
 	return UF("idx", []string{SInt, SInt}, SInt, off, i)
 }
 
+// A Coins value is modelled as a function denom -> amount; when code indexes it as a slice, element i is
+// the coin (denomAt(c,i), c[denomAt(c,i)]) with pairwise distinct denoms and a positive amount.
+func CoinsLen(c *Term) *Term { return UF("coinsLen", []string{sortStrArrInt}, SInt, c) }
+func DenomAt(c, i *Term) *Term {
+	return UF("denomAt", []string{sortStrArrInt, SInt}, SStr, c, i)
+}
+
 // TRem is Go's % (sign of dividend).
 func TRem(x, y *Term) *Term { return Sub(x, Mul(y, TQuo(x, y))) }
 
@@ -366,6 +373,18 @@ func (o *Obligation) SMT(withModel bool, forCVC5 bool) string {
 			strAx = append(strAx, Forall([]*Term{a, b}, Eq(UF("strtail", []string{SStr, SStr}, SStr, a, StrCat(a, b)), b), []*Term{StrCat(a, b)}))
 		}
 	}
+	if _, ok := d.funs["toBech32"]; ok {
+		// bech32 decoding is the inverse of encoding
+		a := Bound("a", SStr)
+		d.funs["fromBech32"] = []string{SStr, SStr}
+		tb := UF("toBech32", []string{SStr}, SStr, a)
+		strAx = append(strAx, Forall([]*Term{a}, Eq(UF("fromBech32", []string{SStr}, SStr, tb), a), []*Term{tb}))
+	}
+	if _, ok := d.funs["denomAt"]; ok {
+		cA, i, j := Bound("c", sortStrArrInt), Bound("i", SInt), Bound("j", SInt)
+		inR := func(k *Term) *Term { return And(Ge(k, Num(0)), Lt(k, CoinsLen(cA))) }
+		strAx = append(strAx, Forall([]*Term{cA, i, j}, Implies(And(inR(i), inR(j), Neq(i, j)), Neq(DenomAt(cA, i), DenomAt(cA, j))), []*Term{DenomAt(cA, i), DenomAt(cA, j)}))
+	}
 	if _, ok := d.funs["idx"]; ok {
 		a, b := Bound("o", SInt), Bound("i", SInt)
 		ix := UF("idx", []string{SInt, SInt}, SInt, a, b)
@@ -393,7 +412,7 @@ func (o *Obligation) SMT(withModel bool, forCVC5 bool) string {
 		fmt.Fprintf(&sb, "(assert %s)\n", a)
 	}
 	for _, a := range strAx {
-		if o.noQuant && a.K == TQuant && !strings.Contains(a.String(), "(idx ") && !strings.Contains(a.String(), "dec") {
+		if o.noQuant && a.K == TQuant && !strings.Contains(a.String(), "(idx ") && !strings.Contains(a.String(), "dec") && !strings.Contains(a.String(), "denomAt") && !strings.Contains(a.String(), "toBech32") {
 			continue
 		}
 		fmt.Fprintf(&sb, "(assert %s)\n", a)
@@ -473,7 +492,15 @@ func runSolver(ctx context.Context, sp solverSpec, file string, timeoutS int) so
 	_ = cmd.Run()
 	dt := time.Since(t0).Seconds()
 	s := out.String()
-	first := strings.TrimSpace(strings.SplitN(s, "\n", 2)[0])
+	first := ""
+	for _, ln := range strings.Split(s, "\n") {
+		ln = strings.TrimSpace(ln)
+		if ln == "" || strings.HasPrefix(ln, "WARNING") || strings.HasPrefix(ln, "(warning") {
+			continue
+		}
+		first = ln
+		break
+	}
 	ans := "error"
 	switch {
 	case first == "unsat":
@@ -596,10 +623,11 @@ func (o *Obligation) fetchModel(base string) {
 	if r.answer != "sat" {
 		return
 	}
-	rest := strings.SplitN(r.out, "\n", 2)
-	if len(rest) < 2 {
+	idx := strings.Index(r.out, "sat\n")
+	if idx < 0 {
 		return
 	}
+	rest := []string{"sat", r.out[idx+4:]}
 	vals := parseGetValue(rest[1])
 	o.Model = map[string]string{}
 	for i, w := range o.Watch {
